@@ -13,6 +13,10 @@ func (t *tree) Insert(ctx context.Context, key, value []byte) error {
 	if value == nil {
 		value = []byte{}
 	}
+	// The length of a key in bits must fit the depth type, otherwise it wraps around.
+	if len(key) > node.MaxKeyLength {
+		return ErrKeyTooLong
+	}
 
 	t.cache.Lock()
 	defer t.cache.Unlock()
